@@ -82,7 +82,7 @@ PLAN["C17"] = dict(
          "Non-trivial = some input value is above 0x2FFFF; distinct = digest of all decoded inputs.",
     oracle="is_good() and every element <= 0x2FFFF for every string handed out; integer constructors element-wise x <= 0x2FFFF ? x : 0xFFFD; text constructors exact when all characters are in range (in-range characters kept in order otherwise); parse_smt_literal == R8 on in-range texts; every such string s: ReManager::str(s) does not panic and str_in_re(s, str(s))",
     assumptions=COMMON_ASSUMPTIONS + ["what an out-of-range character of a text becomes is not prescribed by the property beyond well-formedness"],
-    quick=dict(proptest={"rel": (8, 6000), "dbg": (4, 3000)}),
+    quick=dict(proptest={"rel": (12, 8000), "dbg": (4, 2500)}),
     thorough=dict(proptest={"rel": (16, 150000), "dbg": (8, 50000)}),
 )
 
@@ -99,7 +99,7 @@ PLAN["C01"] = dict(
          "Non-trivial = >= 3 instructions, at least one loop/complement/inter/diff, and both a member and a non-member of the final slot among the sampled strings; distinct = digest of (landmarks, program).",
     oracle="(a) exact: derivative-graph bisimulation (R5) of EVERY slot against its reference DFA (R4, built bottom-up with textbook product/subset constructions from the SMT-LIB meaning of the program): str_in_re agrees with the denotation on all strings over the probed characters, and nullable == (epsilon in L) at every reached term; (b) sampled: str_in_re == DP matcher (R3, no automata) for every slot, covering the large-bound stream; (c) the same through smt_regular_expressions::str_in_re",
     assumptions=RX_ASSUME,
-    quick=dict(proptest={"rel": (12, 3000), "dbg": (4, 1200)}),
+    quick=dict(proptest={"rel": (12, 8000), "dbg": (4, 2000)}),
     thorough=dict(proptest={"rel": (16, 60000), "dbg": (8, 15000)}),
 )
 
@@ -107,7 +107,7 @@ PLAN["C02"] = dict(
     rule=RX_GEN % 10 + "; the final slot and one other slot are compiled with compile and try_compile(n+3). Non-trivial = automaton of the final slot has >= 3 states and its language is neither empty nor everything; distinct = digest of (landmarks, program).",
     oracle="structure: every state's ranges sorted, disjoint, inside [0,0x2FFFF]; a default successor whenever a character is uncovered; next() returns without panic on every break-point character of every state (0 and 0x2FFFF included); language: product of the reference DFA with the crate automaton through next() from the initial state (exact equality, not sampled strings); accepts/str_next on sampled strings against the DP matcher",
     assumptions=RX_ASSUME,
-    quick=dict(proptest={"rel": (12, 12000), "dbg": (4, 3000)}),
+    quick=dict(proptest={"rel": (12, 40000), "dbg": (4, 8000)}),
     thorough=dict(proptest={"rel": (16, 250000), "dbg": (8, 60000)}),
 )
 
@@ -116,7 +116,7 @@ PLAN["C03"] = dict(
          "Non-trivial = the term has >= 2 classes and a query set straddles classes; distinct = digest of (landmarks, program).",
     oracle="for every probed character c: char_derivative(e,c) and class_derivative(e, class of c) are bisimilar (R5) to the reference state after c, i.e. denote exactly c^-1 L(e) for all continuation strings, so every character of a class gives the class derivative; str_derivative is pointer-equal to the fold of char_derivative; class ids cover the alphabet (Complement listed iff something is uncovered, computed from char_ranges); invalid ids => Err(BadClassId); set_derivative(e,[a,b]) => Ok(common derivative, checked against the quotient at both ends) when the set lies in one class by linear scan, Err(_) when it meets more than one",
     assumptions=RX_ASSUME + ["the error variant of set_derivative is not checked (statement: 'an error')"],
-    quick=dict(proptest={"rel": (12, 12000), "dbg": (4, 3000)}),
+    quick=dict(proptest={"rel": (12, 40000), "dbg": (4, 8000)}),
     thorough=dict(proptest={"rel": (16, 250000), "dbg": (8, 60000)}),
 )
 
@@ -125,7 +125,7 @@ PLAN["C05"] = dict(
          "Non-trivial = final language empty although the term is not the syntactic empty term, or a witness of length >= 2; distinct = digest of (landmarks, program).",
     oracle="is_empty_re(e) <=> the reference DFA has no reachable final state; get_string(e) is None <=> empty; a witness is_good(), is a member by the DP matcher (R3), by str_in_re, and is accepted by compile(e)",
     assumptions=RX_ASSUME,
-    quick=dict(proptest={"rel": (12, 15000), "dbg": (4, 4000)}),
+    quick=dict(proptest={"rel": (12, 40000), "dbg": (4, 8000)}),
     thorough=dict(proptest={"rel": (16, 300000), "dbg": (8, 80000)}),
 )
 
@@ -134,7 +134,7 @@ PLAN["C18"] = dict(
          "Non-trivial = the program contains an intersection/difference or a semantically empty sub-term, and both answers occur over the probed characters; distinct = digest of (landmarks, program).",
     oracle="start_char(e,c) <=> in the reference DFA the state after atom(c) can reach a final state; start_class(e,cid) gives that value for every probed character of the class (classes recomputed from char_ranges by linear scan); invalid id => Err(BadClassId)",
     assumptions=RX_ASSUME,
-    quick=dict(proptest={"rel": (12, 12000), "dbg": (4, 3000)}),
+    quick=dict(proptest={"rel": (12, 40000), "dbg": (4, 8000)}),
     thorough=dict(proptest={"rel": (16, 250000), "dbg": (8, 60000)}),
 )
 
@@ -142,7 +142,7 @@ PLAN["C19"] = dict(
     rule=RX_GEN % 10 + "; bounds n in {0, 1, N-1, N, N+1, 2N, usize::MAX, random} where N is the derivative count measured by the harness's own BFS. Non-trivial = N >= 4; distinct = digest of (landmarks, program).",
     oracle="iter_derivatives(e): first item is e (pointer), no item repeats, item set == closure computed independently by BFS with char_derivative over all class-boundary characters, and the yielded set is closed; try_compile(e,n) is Some <=> N <= n (None for n = 0); compile(e) succeeds; num_states() == N in both",
     assumptions=RX_ASSUME + ["termination of iter_derivatives is only observable up to the cap of 400 derivatives (a case above the cap is a counted discard; a hang is caught by the watchdog and reported as exit 2)"],
-    quick=dict(proptest={"rel": (12, 12000), "dbg": (4, 3000)}),
+    quick=dict(proptest={"rel": (12, 40000), "dbg": (4, 8000)}),
     thorough=dict(proptest={"rel": (16, 250000), "dbg": (8, 60000)}),
 )
 
@@ -157,7 +157,7 @@ PLAN["C04"] = dict(
     rule=AUTO_GEN + "; the same source is built twice (A kept, B minimised). Non-trivial = A has two equivalent states (Moore refinement through next() finds fewer classes than states) and >= 2 classes remain; distinct = digest of the source.",
     oracle="independent Moore partition refinement written in the harness, run through next() only: L(B) = L(A) = reference language by exact product (R5); refinement of B yields B.num_states() classes (no two equivalent states); when every state of A is reachable B.num_states() equals the size of the minimal complete reference DFA (Myhill-Nerode index); a second minimize changes nothing; initial state, is_final, num_final_states, final_states consistent",
     assumptions=AUTO_ASSUME,
-    quick=dict(proptest={"rel": (12, 12000), "dbg": (4, 4000)}),
+    quick=dict(proptest={"rel": (12, 40000), "dbg": (4, 8000)}),
     thorough=dict(proptest={"rel": (16, 250000), "dbg": (8, 60000)}),
 )
 
@@ -166,7 +166,7 @@ PLAN["C13"] = dict(
          "Non-trivial = >= 2 labels and (the specification has a conflict or an incomplete state, or some state has >= 2 transitions and no default); distinct = digest of the call sequence.",
     oracle="the specification's own meaning by linear scan per state: conflict (a character in two labels with different targets), incomplete (a character with neither label nor declared default); Ok => neither holds anywhere; a specification with pairwise disjoint labels, complete, defaults declared only where a gap is left => must be Ok; for Ok: lock-step walk from initial_state() and the label given to new builds a label<->state bijection under which is_final = marked and, for every break-point character, the successor is the explicit transition covering it, else the declared default; num_states = labels mentioned, num_final_states = labels marked",
     assumptions=COMMON_ASSUMPTIONS + ["error variants and state ids are not checked; same-target overlaps and a default declared although everything is covered may be accepted or rejected (the statement allows both)"],
-    quick=dict(proptest={"rel": (12, 15000), "dbg": (4, 5000)}),
+    quick=dict(proptest={"rel": (12, 50000), "dbg": (4, 10000)}),
     thorough=dict(proptest={"rel": (16, 400000), "dbg": (8, 100000)}),
 )
 
@@ -174,7 +174,7 @@ PLAN["C14"] = dict(
     rule=AUTO_GEN + "; built twice (A kept, B pruned). Non-trivial = at least one unreachable state is removed, or the automaton has >= 3 states of which >= 2 have both explicit transitions and a default (sparse rows that share the compact table); distinct = digest of the source.",
     oracle="reference reachability by BFS through next(); after remove_unreachable_states: num_states = |reach|, a lock-step walk from the initial states is a bijection reach(A) <-> states(B) preserving finality and every transition, language unchanged (product with the reference DFA); combined_char_partition: all break-point characters that fall in one class have identical next() in every state; pick_alphabet hits every class exactly once; compile_successors().eval(id, i) = next(state, alphabet[i]).id for EVERY cell; edges(s) = one pair per range plus one for the default, each equal to next/class_next; num_states/num_final_states/final_states/ids consistent with states()",
     assumptions=AUTO_ASSUME,
-    quick=dict(proptest={"rel": (12, 10000), "dbg": (4, 3000)}),
+    quick=dict(proptest={"rel": (12, 25000), "dbg": (4, 6000)}),
     thorough=dict(proptest={"rel": (16, 200000), "dbg": (8, 50000)}),
 )
 
@@ -183,7 +183,7 @@ PLAN["C07"] = dict(
          "Non-trivial = a Rebuild (or the final re-issue) separated from its Build by >= 3 allocating operations including a derivative/compile/emptiness call, and a union/intersection whose operands are not in increasing slot order; distinct = digest of (manager kind, landmarks, operation list).",
     oracle="model: every slot carries the term and its reference DFA (constructor slots: reference operation on the operands' DFAs; derivative slots: reference quotient). After every step: Rebuild is == and pointer-identical; for all pairs of slots a == b <=> same address, and same address => equal reference languages; complement(complement(e)) is e and complement(e) differs from e; the language of each new term (and of its complement) equals its reference by bisimulation (R5), again at the end of the history and on a fresh manager (history independence); is_empty_re/str_in_re answers agree with the reference at every point of the history",
     assumptions=RX_ASSUME + ["union(a,b) and union(b,a) are different argument lists: only equal languages are required of them, not identity", "through the wrappers languages are compared on shortest members/non-members and sampled strings (no derivative API is exposed there)"],
-    quick=dict(enum={"rel": 1, "dbg": 1}, proptest={"rel": (12, 4000), "dbg": (4, 1500)}),
+    quick=dict(enum={"rel": 1, "dbg": 1}, proptest={"rel": (12, 12000), "dbg": (4, 3000)}),
     thorough=dict(enum={"rel": 1, "dbg": 1}, proptest={"rel": (16, 80000), "dbg": (8, 20000)}),
 )
 
@@ -192,7 +192,7 @@ PLAN["C10"] = dict(
          "Non-trivial = a match exists and (the pattern is nullable, or >= 2 match lengths are possible at the chosen start, or >= 2 replacements are made); distinct = digest of (program, subjects, replacement).",
     oracle="membership matrix M[i][j] of the subject from the DP matcher (R3); replace_re: least i with some j >= i, M[i][j], then least such j (j = i allowed): s[..i].t.s[j..], or s if none; replace_re_all: from p, least i >= p with some j > i, least such j, emit s[p..i].t, continue at j, copy the tail; exact equality of the results",
     assumptions=COMMON_ASSUMPTIONS + ["loop-range arithmetic overflow (documented panic) is a counted discard"],
-    quick=dict(proptest={"rel": (12, 6000), "dbg": (4, 2000)}),
+    quick=dict(proptest={"rel": (12, 20000), "dbg": (4, 5000)}),
     thorough=dict(proptest={"rel": (16, 120000), "dbg": (8, 30000)}),
 )
 
@@ -201,6 +201,6 @@ PLAN["C16"] = dict(
          "Non-trivial = included_in returned true for two different terms where the first language is not empty and the second is not everything; distinct = digest of (landmarks, program).",
     oracle="r.included_in(s) = true => L(r) subset of L(s) by the reference DFAs (R4: product with the complement is empty); false is never judged; every union / union_list slot is bisimilar (R5) to the reference union of its operands (so a pruned operand never loses strings)",
     assumptions=RX_ASSUME,
-    quick=dict(proptest={"rel": (12, 5000), "dbg": (4, 1500)}),
+    quick=dict(proptest={"rel": (12, 15000), "dbg": (4, 4000)}),
     thorough=dict(proptest={"rel": (16, 100000), "dbg": (8, 25000)}),
 )
